@@ -304,6 +304,11 @@ def conditions(tier):
             firsts = sorted(set([kk * n + j for kk in range(nk) for j in (0, n - 1)] + ([nops - 1] if nops > nk * n else [])))
         for fs in ([0] * 8, [1] * 8) if tier == "thorough" else ([1] * 8,):
             for h0 in firsts:
+                if sk == "nested" and fs[0] == 0 and h0 is not None:
+                    # with these selectors the optional second leaf is absent (2 nodes)
+                    nk = 3 if ops == "full" else 4
+                    if h0 >= nk * 2 + 1:
+                        continue
                 nm = f"history/{sk}/k{k}sel{fs[0]}" + (f"first{h0}" if h0 is not None else "")
                 conds.append({"name": nm, "func": "ident_history", "shard": {"sk": sk, "k": k, "lens": [1] * nstr, "fixed_sels": fs, "data": "concrete", "ops": ops, "h0": h0, "symz": tier == "thorough"}, "timeout": 400 if tier == "quick" else 2400})
     conds.append({"name": "golden", "func": "golden", "shard": {"real_hash": 1}, "timeout": 300})
